@@ -32,6 +32,10 @@ type Value struct {
 	ElemU bool
 	Typ   types.Type
 	Elems []Value
+	// Base/Rel: for a slice expression x[lo:hi] used directly, Off = Base + Rel where Base is
+	// the offset of x's own view; lets copies be stated relative to x's view (matching-friendly).
+	Base *Term
+	Rel  *Term
 }
 
 func intV(t *Term) Value  { return Value{K: VInt, T: t} }
